@@ -6,7 +6,15 @@
  *   element k of the selection is source element start' + k*step.
  */
 #include "harness.h"
+#if defined(H_VIEW1) || defined(H_VIEWFAM)
+#include "C05_view.h"
+#elif defined(H_FAM) || defined(H_DYN) || defined(H_FAMSAME)
+#include "C05_fam.h"
+#else
 #include "C05_slice.h"
+#endif
+/* every harness function is compiled only when its H_<NAME> macro is set (props/C05.py adds it to every configuration), so that the native
+   builds only reference the kernels of the selected instantiation */
 #ifndef MAXN
 #define MAXN 6
 #endif
@@ -66,6 +74,7 @@ static void in_slice1(u64* n, i32* st, i32* sp, i32* se){
   ASSUME(*se != 0);
   ASSUME(*st >= -(i64)*n - 2 && *st <= (i64)*n + 2 && *sp >= -(i64)*n - 2 && *sp <= (i64)*n + 2);
 }
+#ifdef H_PACKED1
 void h_packed1(void){
   u64 n; i32 st, sp, se; in_slice1(&n, &st, &sp, &se);
   u64 k = in_u64(0, MAXN-1);
@@ -81,6 +90,7 @@ void h_packed1(void){
   }
   REACHED();
 }
+#endif
 
 /* ---- differential: two encodings of the same slice give the same extent and the same source index, on the WHOLE domain
  *      (no finding region is excluded here: both sides share compute_range/compute_index) ---- */
@@ -90,6 +100,7 @@ void h_packed1(void){
 #define DBS k_dshape1_a3
 #define DBI k_dindex1_a3
 #endif
+#ifdef H_SAME1
 void h_same1(void){
   u64 n; i32 st, sp, se; in_slice1(&n, &st, &sp, &se);
   u64 k = in_u64(0, 2*MAXN+4);
@@ -103,6 +114,7 @@ void h_same1(void){
   }
   REACHED();
 }
+#endif
 
 /* ---- 2 and 3 axes: families of integers (i), slices (s, all three parts integers) and at most one ellipsis (e) ----
  * FAM names the packed instantiation (per-query constant); the dynamic encoding takes the kinds as run-time values. */
@@ -137,6 +149,11 @@ static ref_t np_index(const u64* shape, const int* kinds, int ni, const i32* p){
       r.ex[r.od] = (u64)py.len; r.first[ax] = py.first; r.stp[ax] = py.step; r.kept[ax] = (int)r.od; r.od++; ax++;
     }
   }
+  /* NumPy: axes not addressed by any item are taken whole (a[1:2] on a 2-d array is a[1:2, :]) */
+  for (int f = 0; f < 3; f++) if (ax < DIM){ r.ex[r.od] = shape[ax]; r.first[ax] = 0; r.stp[ax] = 1; r.kept[ax] = (int)r.od; r.od++; ax++; r.ok = 0; }
+#ifdef KF_C05_SHORT
+  ASSUME(r.ok);        /* open finding: fewer items than axes and no ellipsis */
+#endif
   (void)ne;
   return r;
 }
@@ -150,7 +167,7 @@ static int fam_kinds(int* kinds){ const char* d = STR(FAM); int ni = (int)sizeof
 #define DSHAPE CAT(CAT(k_dynshape,DIM),LISTK)
 #define DINDEX CAT(CAT(k_dynindex,DIM),LISTK)
 
-#ifndef CONSTK
+#ifdef H_FAM
 void h_fam(void){
   u64 shape[3] = {1,1,1}, idx[3] = {0,0,0}, os[3] = {0,0,0}, src[3] = {0,0,0}; i32 p[3*MAXI]; int kinds[MAXI];
   for (int a = 0; a < DIM; a++) shape[a] = in_u64(1, MAXF);
@@ -171,8 +188,8 @@ void h_fam(void){
 #endif
   REACHED();
 }
-
 #endif
+
 /* dynamic encoding (list of either<int, either<array<int,3>, ellipsis>>): the item kinds are run-time values of ONE instantiation;
  * CONSTK: they are the per-query constant FAM (all families are enumerated by props/C05.py); otherwise symbolic */
 static int in_kinds(int* kinds){
@@ -181,16 +198,9 @@ static int in_kinds(int* kinds){
   ASSUME(ne <= 1 && nn <= DIM && (ne == 1 || nn == DIM));     /* at most one ellipsis; without one, one item per axis */
   return ni;
 }
-void h_dyn(void){
-  u64 shape[3] = {1,1,1}, idx[3] = {0,0,0}, os[4] = {0,0,0,0}, src[4] = {0,0,0,0}; i32 p[3*MAXI]; int kinds[MAXI];
-  for (int a = 0; a < DIM; a++) shape[a] = in_u64(1, MAXF);
-  in_parts(p);
-  for (int a = 0; a < 3; a++) idx[a] = in_u64(0, MAXF-1);
-#ifdef CONSTK
-  int ni = fam_kinds(kinds);        /* item kinds are the per-query constant FAM */
-#else
-  int ni = in_kinds(kinds);
-#endif
+#ifdef H_DYN
+static void dyn_check(const u64* shape, const int* kinds, const i32* p, const u64* idx, int ni){
+  u64 os[4] = {0,0,0,0}, src[4] = {0,0,0,0};
   ref_t r = np_index(shape, kinds, ni, p);
   u64 od = DSHAPE(shape, (u32*)kinds, (u32*)p, (u64)ni, os);
   ASSERT(od == r.od, "result dim");
@@ -201,5 +211,131 @@ void h_dyn(void){
     ASSERT(sd == DIM, "source index has the source dim");
     for (int a = 0; a < DIM; a++){ ASSERT(src[a] == (u64)(r.first[a] + (r.kept[a] >= 0 ? (i64)idx[r.kept[a]] * r.stp[a] : 0)), "source index"); OBS(src[a]); }
   }
+}
+void h_dyn(void){
+  u64 shape[3] = {1,1,1}, idx[3] = {0,0,0}; i32 p[3*MAXI]; int kinds[MAXI];
+  for (int a = 0; a < DIM; a++) shape[a] = in_u64(1, MAXF);
+  in_parts(p);
+  for (int a = 0; a < 3; a++) idx[a] = in_u64(0, MAXF-1);
+#ifdef CONSTK
+  int ni = fam_kinds(kinds);        /* item kinds are the per-query constant FAM */
+#ifdef SHORTNS
+  /* FAM has one item per axis; a symbolic choice drops the last item (fewer items than axes: NumPy takes the last axis whole).
+     Two calls with constant item counts (a symbolic count runs into a CBMC imprecision, see props/C05.py) */
+  if (in_u64(0, 1)) dyn_check(shape, kinds, p, idx, (int)sizeof(STR(FAM)) - 2); else dyn_check(shape, kinds, p, idx, (int)sizeof(STR(FAM)) - 1);
+#else
+  dyn_check(shape, kinds, p, idx, ni);
+#endif
+#else
+  int ni = in_kinds(kinds);
+  dyn_check(shape, kinds, p, idx, ni);
+#endif
   REACHED();
 }
+#endif
+
+/* ---- view level: shape and ELEMENTS of view::apply_slice / view::slice over a hybrid array with symbolic data ---- */
+static void in_cells(u32* d, int n){ for (int i = 0; i < n; i++) d[i] = in_any32(); }
+#define VS1 CAT(k_vslice1_,PAT)
+#ifdef H_VIEW1
+void h_view1(void){
+  u64 n; i32 st, sp, se; in_slice1(&n, &st, &sp, &se);
+  u64 k = in_u64(0, MAXN-1), os[2] = {0,0}, od = 0; u32 data[8], out = 0;
+  in_cells(data, MAXN);
+  pys_t py = py_slice((i64)n, HS, st, HP, sp, HE, se);
+  kf_exclude((i64)n, HS, st, HP, sp, HE, se, py);
+  int inside = k < (u64)py.len;
+  int r = VS1(&n, data, (u32)st, (u32)sp, (u32)se, &k, inside ? 1 : 0, os, &od, &out);
+  ASSERT(r == (inside ? 1 : 2), "slice view exists");
+  ASSERT(od == 1 && os[0] == (u64)py.len, "view shape == (Python slice length,)");
+  if (inside){ ASSERT(out == data[py.first + (i64)k * py.step], "view element k == source element start' + k*step"); OBS(out); }
+  OBS(os[0]);
+  REACHED();
+}
+#endif
+#if DIM == 2
+#define VCELLS 16
+#else
+#define VCELLS 27
+#endif
+#define VSF CAT(CAT(CAT(k_vslice,DIM),_),FAM)
+#define VAP CAT(k_vapply,DIM)
+#ifdef H_VIEWFAM
+static void h_viewcommon(int dyn){
+  u64 shape[3] = {1,1,1}, idx[3] = {0,0,0}, os[4] = {0,0,0,0}, od = 0; i32 p[3*MAXI]; int kinds[MAXI]; u32 data[VCELLS], out = 0;
+  for (int a = 0; a < DIM; a++) shape[a] = in_u64(1, MAXF);
+  in_parts(p);
+  for (int a = 0; a < 3; a++) idx[a] = in_u64(0, MAXF-1);
+  in_cells(data, VCELLS);
+  int ni = fam_kinds(kinds);
+  ref_t r = np_index(shape, kinds, ni, p);
+  int valid = r.od >= 1; for (int a = 0; a < 3; a++) if ((u64)a < r.od && idx[a] >= r.ex[a]) valid = 0;
+  int rc;
+#ifdef CONSTK
+  rc = VAP(shape, data, (u32*)kinds, (u32*)p, (u64)ni, idx, valid ? r.od : 7, os, &od, &out);
+#else
+  rc = VSF(shape, data, (u32*)p, idx, valid ? r.od : 7, os, &od, &out);
+#endif
+  (void)dyn;
+  ASSERT(rc == (valid ? 1 : 2), "slice view exists");
+  ASSERT(od == r.od, "view dim");
+  for (int a = 0; a < 3; a++) if ((u64)a < r.od){ ASSERT(os[a] == r.ex[a], "view shape == Python slice lengths of the kept axes"); OBS(os[a]); }
+  if (valid){
+    u64 off = 0; for (int a = 0; a < DIM; a++) off = off * shape[a] + (u64)(r.first[a] + (r.kept[a] >= 0 ? (i64)idx[r.kept[a]] * r.stp[a] : 0));
+    ASSERT(out == data[off], "view element == source element at start' + k*step per kept axis, the integer on dropped axes");
+    OBS(out);
+  }
+  REACHED();
+}
+void h_viewfam(void){ h_viewcommon(0); }
+#endif
+
+/* ---- large extents: n up to 2^31-3 (so that n+2 fits the int parts), start/stop symbolic over [-(n+2), n+2], the step is the per-query constant STEP.
+ *      Decides the slice-length arithmetic (ceiling division, the former float rounding beyond 2^24) and the index arithmetic at a symbolic position. ---- */
+#ifdef H_BIG1
+#ifndef BIGN
+#define BIGN 2147483645
+#endif
+#ifndef STEP
+#define STEP 1
+#endif
+void h_big1(void){
+  u64 n = in_u64(1, BIGN);
+  i32 st = in_i32(-(i64)BIGN - 2, (i64)BIGN + 2), sp = in_i32(-(i64)BIGN - 2, (i64)BIGN + 2), se = STEP;
+  ASSUME(st >= -(i64)n - 2 && st <= (i64)n + 2 && sp >= -(i64)n - 2 && sp <= (i64)n + 2);
+  u64 k = in_u64(0, BIGN);
+  pys_t py = py_slice((i64)n, HS, st, HP, sp, HE, se);
+  kf_exclude((i64)n, HS, st, HP, sp, HE, se, py);
+  u64 got = CAT(PFXS,PAT)(n, (u32)st, (u32)sp, (u32)se);
+  ASSERT(got == (u64)py.len, "extent == Python slice length");
+  OBS(got);
+  if (k < (u64)py.len){
+    u64 src = CAT(PFXI,PAT)(n, (u32)st, (u32)sp, (u32)se, k);
+    ASSERT(src == (u64)(py.first + (i64)k * py.step), "element k is source element start' + k*step");
+    OBS(src);
+  }
+  REACHED();
+}
+#endif
+
+/* ---- differential on 2-3 axes, NO finding region excluded: the packed instantiation FAM and the dynamic encoding with the same item kinds agree ---- */
+#ifdef H_FAMSAME
+void h_famsame(void){
+  u64 shape[3] = {1,1,1}, idx[3] = {0,0,0}, osa[4] = {0,0,0,0}, osb[4] = {0,0,0,0}, sa[4] = {0,0,0,0}, sb[4] = {0,0,0,0}; i32 p[3*MAXI]; int kinds[MAXI];
+  for (int a = 0; a < DIM; a++) shape[a] = in_u64(1, MAXF);
+  in_parts(p);
+  for (int j = 0; j < MAXI; j++) ASSUME(p[3*j+2] != 0);
+  for (int a = 0; a < 3; a++) idx[a] = in_u64(0, 2*MAXF+4);
+  int ni = fam_kinds(kinds);
+  u64 oda = FSHAPE(shape, (u32*)p, osa), odb = DSHAPE(shape, (u32*)kinds, (u32*)p, (u64)ni, osb);
+  ASSERT(oda == odb, "same result dim");
+  int valid = oda >= 1 && oda <= 3;
+  for (int a = 0; a < 3; a++) if ((u64)a < oda){ ASSERT(osa[a] == osb[a], "same extents"); OBS(osa[a]); if (idx[a] >= osa[a]) valid = 0; }
+  if (valid){
+    u64 da = FINDEX(shape, (u32*)p, idx, sa), db = DINDEX(shape, (u32*)kinds, (u32*)p, (u64)ni, idx, oda, sb);
+    ASSERT(da == db, "same source dim");
+    for (int a = 0; a < DIM; a++){ ASSERT(sa[a] == sb[a], "same source index"); OBS(sa[a]); }
+  }
+  REACHED();
+}
+#endif
